@@ -31,13 +31,14 @@ class DX(Dialect):
 
 class Family:
     def __init__(self, style, supertypes=False, tagger=False, mixin=True, fmt=None, predef=False, dialect=None, two=False,
-                 cross=False):
+                 cross=False, ann_extra=False):
         """style: config | annotated | codec | nested (Config discriminator on the root, holder field typed with the bare root).
         dialect: None | 'always' | 'alt' (every / every other call passes dialect=DX; classes that can get ADD_DIALECT_SUPPORT).
         two: the holder has a second discriminated field with ANOTHER tagger function, declared first.
         cross: the holder is an ORJSON mixin and calls alternate between from_dict and from_json."""
         self.style, self.supertypes, self.tagger, self.mixin, self.fmt = style, supertypes, tagger, mixin, fmt
         self.predef, self.dialect, self.two, self.cross = predef, dialect, two, cross
+        self.ann_extra = ann_extra  # other Annotated metadata precedes the Discriminator
         self.calls = 0
         self.classes = {}
         bases = (DataClassDictMixin,) if mixin else ()
@@ -62,7 +63,7 @@ class Family:
         self.holder = None
         self.decoder = None
         if style in ("annotated", "nested"):
-            ann = typing.Annotated[self.classes["Base"], self.disc] if style == "annotated" else self.classes["Base"]
+            ann = self.annotated() if style == "annotated" else self.classes["Base"]
             globals()["Holder"] = None
             hbases = self.bases or (DataClassDictMixin,)
             if cross:
@@ -93,8 +94,13 @@ class Family:
             module=__name__)
         globals()[name] = self.classes[name]
 
+    def annotated(self):
+        if self.ann_extra:
+            return typing.Annotated[self.classes["Base"], "doc", ("other", 1), self.disc]
+        return typing.Annotated[self.classes["Base"], self.disc]
+
     def make_decoder(self):
-        self.decoder = BasicDecoder(typing.Annotated[self.classes["Base"], self.disc], default_dialect=DX if self.dialect else None)
+        self.decoder = BasicDecoder(self.annotated(), default_dialect=DX if self.dialect else None)
 
     def decode(self, d):
         self.calls += 1
@@ -207,11 +213,11 @@ def make_input_plan(T, variant, k=3, **kw):
 
 
 def setup(T, NODE, CTX, variant, k=3, style="config", supertypes=False, tagger=False, mixin=True, fmt=None, predef=False,
-          dialect=None, two=False, cross=False):
+          dialect=None, two=False, cross=False, ann_extra=False):
     S = S_()
     S.node, S.ctx, S.variant = NODE, CTX, variant
     S.fam_args = dict(style=style, supertypes=supertypes, tagger=tagger, mixin=mixin, fmt=fmt, predef=predef, dialect=dialect,
-                      two=two, cross=cross)
+                      two=two, cross=cross, ann_extra=ann_extra)
     return S
 
 
